@@ -214,8 +214,20 @@ Price/fees can be:
             ));
         }
 
-        calculate(&transactions, year, self.fx_cache.as_ref(), &self.config)
-            .map_err(|e| Self::format_calculation_error(e, year))
+        // Decimal arithmetic panics on overflow (quantities or amounts near 7.9e28). A panic
+        // inside a tool call would leave the request without any response, so it is turned
+        // into an error answer here.
+        let outcome = std::panic::catch_unwind(std::panic::AssertUnwindSafe(|| {
+            calculate(&transactions, year, self.fx_cache.as_ref(), &self.config)
+        }));
+        match outcome {
+            Ok(result) => result.map_err(|e| Self::format_calculation_error(e, year)),
+            Err(_) => Err(McpError::internal_error(
+                "Calculation failed: a quantity or amount is too large for decimal arithmetic \
+                 (arithmetic overflow).",
+                None,
+            )),
+        }
     }
 
     /// Format a calculation error with helpful context.
